@@ -32,6 +32,12 @@ fn dispatch(a: &[String]) -> String {
         "felt_add" => raw(felt(&a[1]) + felt(&a[2])),
         "felt_sub" => raw(felt(&a[1]) - felt(&a[2])),
         "felt_mul" => raw(felt(&a[1]) * felt(&a[2])),
+        "felt_multiply" => raw(felt(&a[1]).multiply(felt(&a[2]))),
+        "felt_mul_assign" => {
+            let mut c = felt(&a[1]);
+            c *= felt(&a[2]);
+            raw(c)
+        }
         "felt_neg" => raw(-felt(&a[1])),
         "felt_inv" => raw(felt(&a[1]).inverse_or_zero()),
         "felt_balanced" => felt(&a[1]).balanced_value().to_string(),
